@@ -585,6 +585,82 @@ class Main {
 // family 4: tail recursion (parameter permutations and dependent updates), non-tail recursion
 // ------------------------------------------------------------------------------------------------
 
+/// Lambdas in generic scopes: complete product of what the lambda captures x whether its own type
+/// mentions a generic type x whether its body uses one x the kind of enclosing generic scope x
+/// nesting. (The synthetic function needs every generic type it uses as a type parameter.)
+pub fn generic_closure_family() -> Vec<Prog> {
+  let captures: [(&str, &[&str]); 7] = [
+    ("nothing", &[]),
+    ("p", &["p"]),
+    ("f", &["f"]),
+    ("this", &["this"]),
+    ("p+f", &["p", "f"]),
+    ("v", &["v"]),
+    ("p+f+this+v", &["p", "f", "this", "v"]),
+  ];
+  let lam_params: [(&str, &str, &str); 3] = [("int", "(d: int)", "5"), ("K", "(d: K)", "p"), ("none", "()", "")];
+  let mut out = vec![];
+  for (cname, caps) in captures {
+    for (lname, lparams, larg) in lam_params {
+      for body_generic in [false, true] {
+        for scope in ["method", "function"] {
+          for nested in [false, true] {
+            if scope == "function" && caps.contains(&"this") {
+              continue;
+            }
+            let in_method = scope == "method";
+            let mut terms: Vec<String> = vec!["1".into()];
+            for c in caps {
+              terms.push(match *c {
+                "p" => "{ let _ = p; 2 }".into(),
+                "f" => if caps.contains(&"p") { "f(p)".into() } else { "{ let _ = f; 4 }".into() },
+                "this" => "{ let _ = this.k; 8 }".into(),
+                _ => if in_method { "{ let _ = this.v; 16 }".into() } else { "{ let _ = v; 16 }".into() },
+              });
+            }
+            if body_generic {
+              terms.push("Opt.None<K>().n()".into());
+              terms.push("Opt.Some<V>(Main.anyV<V>()).n() * 32".replace("Main.anyV<V>()", if in_method { "this.v" } else { "v" }));
+            }
+            let body = terms.join(" + ");
+            let lam_type = match lname { "int" => "(int) -> int", "K" => "(K) -> int", _ => "() -> int" };
+            let (lam, ty) = if nested {
+              (format!("() -> {lparams} -> {body}"), format!("() -> {lam_type}"))
+            } else {
+              (format!("{lparams} -> {body}"), lam_type.to_string())
+            };
+            let call = |recv: &str| if nested { format!("{recv}()({larg})") } else { format!("{recv}({larg})") };
+            let decl = if in_method {
+              format!("class B<K, V>(val k: K, val v: V) {{\n  method mk(p: K, f: (K) -> int): {ty} = {lam}\n}}\n")
+            } else {
+              format!("class B {{\n  function <K, V> mk(k: K, v: V, p: K, f: (K) -> int): {ty} = {lam}\n}}\n")
+            };
+            let mk = |k: &str, v: &str, p: &str, f: &str| if in_method { format!("B.init({k}, {v}).mk({p}, {f})") } else { format!("B.mk({k}, {v}, {p}, {f})") };
+            let larg_of = |p: &str| larg.replace('p', p);
+            let _ = larg_of;
+            let mut main = String::new();
+            for (k, v, p, f) in [("1", "\"s\"", "7", "(x) -> x * 10"), ("\"key\"", "2", "\"pp\"", "(x) -> 3"), ("Opt.Some(1)", "Opt.None<int>()", "Opt.None<int>()", "(x) -> x.n() + 20")] {
+              let c = if nested { format!("{}()({})", mk(k, v, p, f), larg.replace('p', p)) } else { format!("{}({})", mk(k, v, p, f), larg.replace('p', p)) };
+              main.push_str(&format!("    Process.println(Str.fromInt({c}));\n"));
+            }
+            let _ = call;
+            let text = format!(
+              "class Opt<T>(None, Some(T)) {{\n  method n(): int = match this {{ None -> 0, Some(_) -> 1 }}\n}}\n{decl}class Main {{\n  function main(): unit = {{\n{main}  }}\n}}\n"
+            );
+            out.push(Prog {
+              family: "generic-closure",
+              shape: format!("captures={cname} lambda-parameter={lname} body-uses-generic={body_generic} scope={scope} nested={nested}"),
+              name: format!("generic-closure captures={cname} param={lname} bodygen={body_generic} {scope} nested={nested}"),
+              text,
+            });
+          }
+        }
+      }
+    }
+  }
+  out
+}
+
 pub fn recursion_family(thorough: bool) -> Vec<Prog> {
   let mut out = vec![];
   let updates2 = ["a", "b", "a + b", "a - b", "b + 1", "a * 2", "0"];
@@ -933,6 +1009,7 @@ pub fn all_families(thorough: bool) -> Vec<Prog> {
   v.extend(type_shape_family(thorough));
   v.extend(expression_family(thorough));
   v.extend(closure_family());
+  v.extend(generic_closure_family());
   v.extend(recursion_family(thorough));
   v.extend(vec_family(thorough));
   v.extend(string_family());
